@@ -32,7 +32,7 @@ CORE_ATOMS = ("a", "ab", "Iab", "c3", "Ic2", "dot", "empty")
 CORE_BIN = ("a", "cd", "Ib", "c3")
 WIDE_ATOMS = ("w99", "w100", "w101", "w50", "c100", "c101", "c100s", "c101s", "c50", "c51", "c10", "c11")
 WIDE_BIN = ("c2", "c10", "a", "c50", "c51", "w2", "c5")
-ODD_ATOMS = ("foo", "k", "Ik", "I1", "nl", "dollar", "c2x", "c1", "cAa", "dotnl", "wb", "neg", "w2")
+ODD_ATOMS = ("foo", "k", "Ik", "I1", "nl", "dollar", "c2x", "c1", "cAa", "dotnl", "wb", "neg", "w2", "c0")
 
 
 def parts(quick):
@@ -46,7 +46,7 @@ def parts(quick):
         P.append(("ctx", cfg(("a", "c3"), ("cd",), ("cap",), ("alt",), 1, "AP_std", ("",), ("plain",), TMPLS), None, None))
         P.append(("shapes", cfg(("a", "c3"), ("cd",), ("cap", "quest"), (), 1, "AP_core", ("", "m"),
                                 ("capall", "grpall", "inner", "altun", "trail"), ALONE, ops=("=~",)), None, None))
-        P.append(("odd", cfg(ODD_ATOMS + ("dot", "empty"), ("a",), ("cap", "r2"), ("cat",), 1, "AP_std", ("", "i", "s"), ("plain",), ALONE,
+        P.append(("odd", cfg(ODD_ATOMS + ("dot", "empty"), ("a", "c0"), ("cap", "r2"), ("cat",), 1, "AP_std", ("", "i", "s"), ("plain",), ALONE,
                              ops=("=~",)), None, None))
         P.append(("wideA", cfg(("w99", "w100", "w101", "w50"), ("c2", "a", "c50", "c51"), ("cap",), ("cat", "alt"), 1, "AP_one", ("", "m"),
                                ("plain",), ALONE, maxcard=300), None, None))
@@ -65,7 +65,7 @@ def parts(quick):
         P.append(("shapes", cfg(("a", "ab", "c3", "Iab"), ("cd",), ("cap", "quest", "r2"), ("alt",), 1, "AP_core", ("", "m", "i"),
                                 ("capall", "grpall", "inner", "altun", "trail"), ALONE), None, None))
         for k, pre in enumerate(("", "i", "s", "m")):
-            P.append(("odd_%d" % k, cfg(ODD_ATOMS, ("a", "c2"), UN_ALL, ("cat", "alt"), 1, "AP_std", (pre,), ("plain",), ALONE), None, None))
+            P.append(("odd_%d" % k, cfg(ODD_ATOMS, ("a", "c2", "c0"), UN_ALL, ("cat", "alt"), 1, "AP_std", (pre,), ("plain",), ALONE), None, None))
         P.append(("wideA", cfg(("w99", "w100", "w101", "w50"), WIDE_BIN, ("cap", "r2"), ("cat", "alt"), 1, "AP_two", ("", "i"),
                                ("plain",), ALONE, maxcard=300), None, None))
         P.append(("wideB", cfg(("c100", "c101", "c100s", "c101s", "c50", "c51", "c10", "c11", "c5", "c4", "neg"), WIDE_BIN, ("cap", "r2", "r3"),
